@@ -67,6 +67,7 @@ import (
 	"bytes"
 	"encoding/binary"
 	"fmt"
+	"github.com/influxdata/influxdb/pkg/verifhook"
 	"hash/crc32"
 	"io"
 	"os"
@@ -734,6 +735,9 @@ func (t *tsmWriter) WriteIndex() error {
 func (t *tsmWriter) Flush() error {
 	if err := t.w.Flush(); err != nil {
 		return err
+	}
+	if f, ok := t.wrapped.(interface{ Name() string }); ok {
+		verifhook.At("tsm.flushed", f.Name(), int64(t.n))
 	}
 
 	return t.sync()
